@@ -11,5 +11,8 @@ Spec == Init /\ [][Next]_c
 FormatIndependent ==
   \A x \in Configs : (x.infmt = c.infmt /\ x.outname = c.outname /\ x.fastaflag = c.fastaflag) => OutFormat(x) = OutFormat(c)
                       \* (in particular it does not depend on the other output files of the run)
-FormatIsFastaOrFastq == OutFormat(c) \in {"fasta", "fastq"} /\ (OutFormat(c) = "fastq" => c.infmt = "fastq")
+FormatIsFastaOrFastq == OutFormat(c) \in {"fasta", "fastq"} /\ ((OutFormat(c) = "fastq" /\ ~MustRefuse(c)) => c.infmt = "fastq")
+\* being refused does not depend on container, layout or cores either
+RefusalIndependent ==
+  \A x \in Configs : (x.infmt = c.infmt /\ x.outname = c.outname /\ x.redirect = c.redirect) => MustRefuse(x) = MustRefuse(c)
 =============================================================================
